@@ -168,6 +168,15 @@ fn check_table(chk: &Chk, rep: &mut Report, db: &Db, t: &Tbl, model: &Model, sql
     for (c, r) in t.cols.iter().zip(rows.iter()) {
         rep.count("columns_introspected", 1);
         let decl = text_of(&r[2]);
+        // `option-sqlite-exact-column-type`: every integer type is spelled exactly `integer` (so that a
+        // primary key of any integer type is the rowid)
+        if cfg!(feature = "exact") && matches!(c.ty, Ty::TinyInt | Ty::SmallInt | Ty::Int | Ty::BigInt | Ty::TinyU | Ty::SmallU | Ty::Unsigned | Ty::BigU) && !c.has(|s| matches!(s, CS::Generated(..))) {
+            rep.count("exact_integer_types_checked", 1);
+            if !decl.eq_ignore_ascii_case("integer") {
+                chk.viol(rep, "R.affinity", format!("{} is not declared `integer` under option-sqlite-exact-column-type", ty_label(&c.ty)), json!({"column": c.name, "declared_type": decl, "sql": sql}));
+                return false;
+            }
+        }
         // affinity carried by the declared type name
         if let Some(want) = c.ty.sqlite_affinity() {
             let got = affinity_of_decl(&decl);
